@@ -34,7 +34,7 @@ def make_model(seed, tier):
     knobs.members = r.choice([3, 5])
     knobs.ns_depth = r.choice([1, 2, 3]) if tier == 'quick' else r.choice([1, 2, 4, 6])
     knobs.type_depth = 3 if tier == 'quick' else r.choice([3, 6])
-    g = gen.WildGen(seed, knobs, typedefs=True, param_use=0.3, this_use=0.08)
+    g = gen.WildGen(seed, knobs, typedefs=True, param_use=0.3, this_use=0.08, overloads=0.2, reopen_ns=0.2)
     return g.module()
 
 
